@@ -406,6 +406,75 @@ def zoned_and_system(acc: Acc):
         acc.violation("C19/system/os-time", "SystemClock %d not within [%d, %d]" % (got, a, b), {})
 
 
+def zoned_histories(acc: Acc, depth):
+    """ONE ZonedClock over a FakeClock; every sequence (length <= depth) of clock movements across and around real
+    transitions, reading every getter after each step.  Oracle: the reading depends on the current instant only."""
+    tz = DateTimeZoneProviders.tzdb
+    cases = [("Europe/London", CalendarSystem.iso), ("Australia/Lord_Howe", CalendarSystem.julian), ("Pacific/Apia", CalendarSystem.hebrew_civil)]
+    epoch = _dt.datetime(1970, 1, 1)
+    for zid, cal in cases:
+        z = tz[zid]
+        zi = z.get_zone_interval(mk_instant(1_600_000_000 * 10**9))
+        if not (zi.has_start and zi.has_end):
+            continue
+        a, b = ins_ns(zi.start), ins_ns(zi.end)          # two consecutive real transitions
+        targets = [a - 3600 * 10**9, a - 1, a, a + 1, (a + b) // 2, b - 1, b, b + 3600 * 10**9]
+        moves = [("reset", t) for t in targets] + [("advance", d) for d in (b - a, a - b, 1, -1)]
+
+        def expect(ns):
+            off = z.get_utc_offset(mk_instant(ns)).seconds
+            days, nod = divmod(ns + off * 10**9, NS_DAY)
+            pyd = (epoch + _dt.timedelta(days=days)).date()
+            return (ns, off, (pyd.year, pyd.month, pyd.day), nod)
+
+        def reading(zc):
+            zdt = zc.get_current_zoned_date_time()
+            odt = zc.get_current_offset_date_time()
+            d = zc.get_current_date().with_calendar(CalendarSystem.iso)
+            t = zc.get_curent_time_of_day()
+            ldt = zc.get_current_local_date_time()
+            i2 = ldt.with_calendar(CalendarSystem.iso)
+            return (ins_ns(zc.get_current_instant()), zdt.offset.seconds, (d.year, d.month, d.day), t.nanosecond_of_day,
+                    ins_ns(zdt.to_instant()), odt.offset.seconds, ins_ns(odt.to_instant()), (i2.year, i2.month, i2.day), ldt.nanosecond_of_day, zdt.calendar.id)
+        n = 0
+        for dlen in range(1, depth + 1):
+            for seq in itertools.product(moves, repeat=dlen):
+                fc = FakeClock(mk_instant(targets[4]))
+                zc = fc.in_zone(z, cal)
+                now = targets[4]
+                n += 1
+                acc.count(evaluations=1)
+                try:
+                    reading(zc)                      # a first reading, so that anything cached is cached
+                    for i, (kind, v) in enumerate(seq):
+                        if kind == "reset":
+                            fc.reset(mk_instant(v))
+                            now = v
+                        else:
+                            fc.advance(Duration.from_nanoseconds(v))
+                            now += v
+                        acc.count(transitions=1)
+                        e = expect(now)
+                        got = reading(zc)
+                        exp = (e[0], e[1], e[2], e[3], e[0], e[1], e[0], e[2], e[3], cal.id)
+                        if got != exp:
+                            acc.violation("C19/zoned-history/%s" % zid,
+                                          "after clock movements %r a reading on the same ZonedClock gives %r, the instant/zone/calendar model says %r" % (seq[:i + 1], got, exp),
+                                          {"kind": "zoned-history", "zone": zid, "calendar": cal.id, "moves": [list(m) for m in seq[:i + 1]]})
+                            raise StopIteration
+                except StopIteration:
+                    break
+                except Exception as e:  # noqa: BLE001
+                    acc.lib_exception("C19/zoned-history/%s" % zid, e, {"zone": zid, "moves": [list(m) for m in seq]})
+                    break
+            else:
+                continue
+            break
+        acc.count(states=n, nontrivial=n)
+        acc.outcome("zoned-history:%s" % zid)
+        acc.sample({"zoned_history": zid, "calendar": cal.id, "transitions_ns": [a, b], "moves": len(moves), "depth": depth, "histories": n})
+
+
 # ---- driver --------------------------------------------------------------------------------------
 
 def run(ctx):
@@ -454,6 +523,9 @@ def run(ctx):
     acc = Acc()
     zoned_and_system(acc)
     ctx.merge_part("zoned_system", acc)
+    acc = Acc()
+    zoned_histories(acc, 2 if tier == "quick" else 3)
+    ctx.merge_part("zoned_histories", acc)
     ctx.exhaustive = not ctx.caps
 
 
